@@ -31,16 +31,17 @@ import (
 )
 
 type c04Machine struct {
-	rt    *rapid.T
-	rec   *vstat.Rec
-	base  string
-	dir   string
-	s     *Store
-	model *g8aModel
-	hist  []string
-	nCopy int
-	nvSeq int
-	nvs   []string // joined fake non-voters
+	rt       *rapid.T
+	rec      *vstat.Rec
+	base     string
+	dir      string
+	s        *Store
+	model    *g8aModel
+	hist     []string
+	nCopy    int
+	nvSeq    int
+	nvs      []string // joined fake non-voters
+	releases []func() // reserved addresses of the fake non-voters
 
 	// shape of the history (for non-triviality and signatures)
 	stagedRetained     bool // a snapshot left a staged WAL behind (persist skipped)
@@ -243,6 +244,7 @@ func TestVerif_C04_Rebuild(t *testing.T) {
 }
 
 func c04Case(rt *rapid.T, rec *vstat.Rec) {
+	g8aNextCase()
 	base, err := os.MkdirTemp("", "c04")
 	if err != nil {
 		rt.Skip("tempdir")
@@ -254,7 +256,12 @@ func c04Case(rt *rapid.T, rec *vstat.Rec) {
 		rt.Skip("listen")
 	}
 	m.s = s
-	defer func() { g8aCloseQuiet(m.s) }()
+	defer func() {
+		g8aCloseQuiet(m.s)
+		for _, r := range m.releases {
+			r()
+		}
+	}()
 	if err := g8aOpenSingle(s, true); err != nil {
 		rec.Label("infra:open-failed")
 		return
@@ -302,7 +309,9 @@ func c04Case(rt *rapid.T, rec *vstat.Rec) {
 		} else {
 			m.nvSeq++
 			id := fmt.Sprintf("nv%d", m.nvSeq)
-			if err := m.s.Join(joinRequest(id, g8aUnusedAddr(), false)); err != nil {
+			nvAddr, release := g8aReserveAddr()
+			m.releases = append(m.releases, release)
+			if err := m.s.Join(joinRequest(id, nvAddr, false)); err != nil {
 				m.fail("C04/join-error", "join of non-voter failed: %v", err)
 			}
 			m.nvs = append(m.nvs, id)
